@@ -28,6 +28,9 @@ pub const ALPHABET: &[char] = &[
     '\u{7f}', '\u{9b}', '\u{9d}', '\u{9c}', '\u{85}', '0', '5', '9', ';', '?', '$', ' ', '>', '#', '%', '(', ')', '[', ']',
     '\\', '@', 'A', 'B', 'C', 'D', 'E', 'F', 'G', 'H', 'J', 'K', 'L', 'M', 'P', 'X', 'a', 'c', 'd', 'e', 'f', 'g', 'h', 'l',
     'm', 'r', '7', '8', 'z', '~', '^', '1', '2', '3', 'R', 'p', 'x', 'Q', 'é', 'コ', '\u{0308}',
+    // non-ASCII characters that the general Unicode predicates (is_numeric, is_whitespace,
+    // is_alphabetic, is_control) put in the same class as an ASCII character of the grammar
+    '\u{b2}', '\u{663}', '\u{2167}', '\u{a0}', '\u{2003}', '\u{2028}', '\u{ff1b}', '\u{ff3b}',
 ];
 
 /// reduced alphabet used inside OSC strings (payload depth is capped separately)
@@ -246,7 +249,7 @@ impl Check for C03Check {
         "C03"
     }
     fn rule(&self) -> String {
-        "event-log conformance: the calls received by a recording ParserListener attached to memterm::parser::Parser (its *_dispatch default methods are inside the observed system) vs an independently written explicit-state recogniser, for input + sentinel 'Z', in UTF-8 and 8-bit mode. Enumerated: all strings over a 73-character class alphabet (13 inside OSC strings) whose proper prefixes keep the reference outside ground, up to length L; plus two-sequence concatenations, random long strings and digit runs of 1..40 digits for every final. distinct = (deduplicated reference state path, mode, number of expected events, workload); non-trivial = the reference left the ground state".into()
+        "event-log conformance: the calls received by a recording ParserListener attached to memterm::parser::Parser (its *_dispatch default methods are inside the observed system) vs an independently written explicit-state recogniser, for input + sentinel 'Z', in UTF-8 and 8-bit mode. Enumerated: all strings over an 81-character class alphabet (13 inside OSC strings) whose proper prefixes keep the reference outside ground, up to length L; plus two-sequence concatenations, random long strings and digit runs of 1..40 digits for every final. distinct = (deduplicated reference state path, mode, number of expected events, workload); non-trivial = the reference left the ground state".into()
     }
     fn assumptions(&self) -> Vec<String> {
         let mut a = assumptions();
@@ -466,7 +469,7 @@ pub struct C19Check;
 pub static C19: C19Check = C19Check;
 
 fn c19_payload(rng: &mut Rng) -> String {
-    let specials = [";", "\\", "]", "[", " ", "  ", "é", "コ", "e\u{0308}", "\x1bx", "\x1b[", "\x1b]", "\n", "\r", "\t", "\x18", "\x1a", "\0", "\u{7f}", "\u{9b}", "\u{9d}", "C:\\dir", "a;b;c", "日本語"];
+    let specials = [";", "\\", "]", "[", " ", "  ", "é", "コ", "e\u{0308}", "\x1bx", "\x1b[", "\x1b]", "a\x1b\x07b", "\x1b\u{9c}", "\x1b\x1b", "\n", "\r", "\t", "\x18", "\x1a", "\0", "\u{7f}", "\u{9b}", "\u{9d}", "C:\\dir", "a;b;c", "日本語"];
     match rng.below(10) {
         0 => String::new(),
         1 => ((b' ' + rng.below(95) as u8) as char).to_string(),
@@ -496,8 +499,8 @@ fn c19_clean(p: &str) -> String {
     let mut out = String::new();
     let mut prev_esc = false;
     for c in p.chars() {
-        if c == '\u{7}' || c == '\u{9c}' {
-            continue;
+        if (c == '\u{7}' || c == '\u{9c}') && !prev_esc {
+            continue; // a bare terminator cannot be payload; paired with ESC it is (documented pyte pairing)
         }
         if prev_esc && c == '\\' {
             out.push('/');
@@ -698,7 +701,7 @@ impl Check for C19Check {
         let codes: Vec<char> = "0123456789abclLxXpZ".chars().collect();
         // enumerated core: every intro x code x terminator x a fixed payload set, every 2-way cut
         let fixed: Vec<String> = {
-            let mut v: Vec<String> = vec!["".into(), "t".into(), ";".into(), "a;b".into(), "C:\\dir".into(), "]x[".into(), " s ".into(), "é".into(), "コ".into(), "e\u{0308}".into(), "\x1bx".into(), "\n\r\t".into(), "\x18".into()];
+            let mut v: Vec<String> = vec!["".into(), "t".into(), ";".into(), "a;b".into(), "C:\\dir".into(), "]x[".into(), " s ".into(), "é".into(), "コ".into(), "e\u{0308}".into(), "\x1bx".into(), "\n\r\t".into(), "\x18".into(), "ab\x1b\x07cd".into(), "\x1b\u{9c}z".into()];
             for b in b' '..=b'~' {
                 v.push((b as char).to_string());
             }
